@@ -9,6 +9,7 @@ import WebpVerif.Lemmas.PrefixFree
 import WebpVerif.Lemmas.HuffShort
 import WebpVerif.Lemmas.ColorIndex
 import WebpVerif.Lemmas.CodeRead
+import WebpVerif.Lemmas.StreamCong
 
 /-!
 # C01 — VP8L decoding matches the lossless specification for every valid stream
@@ -361,5 +362,21 @@ theorem read_code_is_spec (alphabet : Nat) (h2 : 2 ≤ alphabet) (h5000 : alphab
 example : (CodeRead.readCode 40 [1, 1, 0, 1, 0, 0, 0, 0, 0, 0, 0, 0, 1]).map (·.2) = some [1] ∧
     (Prefix.readCodeL 40 [1, 1, 0, 1, 0, 0, 0, 0, 0, 0, 0, 0, 1]).map (·.2) = some [1] := by
   decide
+
+
+/-! ### the entropy layer inside the whole stream -/
+
+/-- **Whole streams with the crate's entropy layer.**  `LStream.decodeCrate` is the VP8L decoder
+    obtained by putting the models of the crate's `read_huffman_code` / `read_huffman_code_lengths`
+    (`CodeRead.readCode`) and `HuffmanTree` (`Huff.readSym`: primary table, secondary trees, slow
+    path, single- and two-node trees) into the stream structure of the specification (header,
+    transforms, colour cache, meta prefix image, pixel loop, inverse transforms); it is compared
+    with the real decoder on every generated stream of up to 300 pixels.  For EVERY byte string
+    it returns exactly what the specification `VP8LP.decode` returns - the same acceptance, the
+    same dimensions, the same pixels: every prefix code of every group of every (sub-)image is read
+    like `ReadCode` reads it, and every symbol of every pixel is decoded like the canonical code
+    decodes it, wherever in the stream it stands. -/
+theorem entropy_layer_in_stream (bytes : List Nat) : LStream.decodeCrate bytes = VP8LP.decode bytes :=
+  LStreamProof.decodeCrate_is_spec bytes
 
 end C01
